@@ -34,6 +34,9 @@ func checkC19(c *Ctx, r *Report) {
 	// R19.6: hooks given in a ClientConfig reach the client: every exported constructor taking a
 	// configuration hands its Hooks on unchanged to the function applying it
 	cfgPassThrough(c, r, "R19.6", func(f *types.Var) bool { return types.IsInterface(f.Type()) })
+	// ... and the function applying the configuration installs them whenever they are set (the
+	// store is control-dependent only on the Hooks field itself)
+	cfgStores(c, r, "R19.6", false, false, true)
 	r.floor("R19.6", 3)
 	r.assumption("hook bodies are user code: they are assumed to return and not to modify the slices they are handed")
 }
